@@ -348,12 +348,27 @@ def typed_vals(vals, salt=0):
     return out
 
 
+def queue_len(sm):
+    """Length of the engine's event queue, or None when the engine keeps it elsewhere than the
+    pinned tree does (the check then has no opinion instead of failing on an internal name)."""
+    q = getattr(getattr(sm, "_engine", None), "_external_queue", None)
+    try:
+        return len(q)
+    except TypeError:
+        return None
+
+
+def lock_held(sm):
+    pr = getattr(getattr(sm, "_engine", None), "_processing", None)
+    if pr is None:
+        return None
+    return pr.locked() if hasattr(pr, "locked") else bool(pr)
+
+
 def leak(sm, expected_queue=0):
-    eng = sm._engine
-    q = len(eng._external_queue)
-    pr = eng._processing
-    locked = pr.locked() if hasattr(pr, "locked") else bool(pr)
-    if q != expected_queue or locked:
+    q = queue_len(sm)
+    locked = lock_held(sm)
+    if (q is not None and q != expected_queue) or locked:
         return (f"engine left dirty after a completed call: queue length {q} (expected "
                 f"{expected_queue}), lock held {locked}")
     return None
